@@ -70,6 +70,9 @@ static void on_write(SimSocket* s, const uint8_t* buf, int n) { static char h[60
     { int hh = hid_of_sock[s->id]; if (n == 6 && buf[2] == 0x43 && hh >= 0 && hh < 4096 && tf_sent_at[hh] == 0) tf_sent_at[hh] = sim_time(); }
     if (slave && slave->serverMode == CS104_MODE_SINGLE_REDUNDANCY_GROUP && n > 6 && (buf[2] & 1) == 0) evq_seen(hid_of_sock[s->id], buf + 6, n - 6); }
 static int kwin_fail = 0; static char kwin_info[300];
+/* ---- C04 oracle (model-free): the reaction to an S-format APDU, judged from the wire alone: N(R) is valid exactly when it
+ * lies between the N(S) of the oldest I-frame the peer has not acknowledged yet and the next N(S), modulo 32768 ---- */
+static int ack_fail = 0; static char ack_info[400]; static long n_ack_valid = 0, n_ack_invalid = 0;
 /* ---- C18 oracle: event grammar per connection OPENED (ACTIVATED DEACTIVATED)* ACTIVATED? CLOSED?, accounting ---- */
 extern long mem_live, mem_allocs, mem_frees; void mem_forget_all(void);
 static int life_fail = 0; static char life_info[400]; static int ev_state[4096];   /* 0 none, 1 opened/deactivated, 2 activated, 3 closed */
@@ -326,19 +329,45 @@ static void hpwrap(int h, int hdr)
     }
 }
 
+/* one acknowledgement probe: S-frame with N(R) = r while the peer-side view of the window is [lo, next N(S)]; returns the
+ * new lo, or -1 when the connection is gone. Abstains (no verdict) when something else could close the connection. */
+static int ack_probe(int h, int r, int lo)
+{
+    uint8_t f[8];
+    MasterConnection c = conn_of_hid(h); if (!c) return -1;
+    bool judge = c->isRunning && ev_state[h] == 2 && c->recvBufPos == 0 && sock_of_hid[h]->in_pos >= sock_of_hid[h]->in_len && !sock_of_hid[h]->write_fail && tf_sent_at[h] == 0 && next_ns[h] >= 0;
+    int hi = next_ns[h], valid = ((r - lo) & 32767) <= ((hi - lo) & 32767);
+    op_rx(h, f, frame_s(f, r)); op_tick(1); if (!valid) op_tick(1);
+    c = conn_of_hid(h);
+    if (judge) { const char* why = NULL;
+        if (valid) { n_ack_valid++; if (!c || !c->isRunning) why = "lies inside the window and must be accepted, but the connection was closed"; }
+        else { n_ack_invalid++; if (c && c->isRunning) why = "lies outside the window and must close the connection, but the connection is still open"; }
+        if (why && !ack_fail++) snprintf(ack_info, sizeof ack_info, "connection h%d at ops-file offset %ld: S-format N(R)=%d with unacknowledged N(S) %d..%d (next N(S) %d) %s", h, (long) ftell(ops), r, lo, (hi + 32767) % 32768, hi, why); }
+    if (!c || !c->isRunning) return -1;
+    return valid ? r : lo;
+}
 /* scripted (C04): an open window that straddles the 32767 -> 0 wrap, filled with events, acknowledged piece by piece */
 static void wrapack(int h, int hdr, int k)
 {
-    uint8_t f[300], a[260];
+    uint8_t a[260];
     MasterConnection c = conn_of_hid(h); if (!c || c->state != M_CON_STATE_STARTED || c->oldestSentASDU != -1) return;
+    /* nothing of the peer may be in flight: a frame delivered earlier and processed only now would move the window unseen */
+    for (int i = 0; i < 3 && (c->recvBufPos != 0 || sock_of_hid[h]->in_pos < sock_of_hid[h]->in_len); i++) { op_tick(1); c = conn_of_hid(h); if (!c) return; }
+    if (c->recvBufPos != 0 || sock_of_hid[h]->in_pos < sock_of_hid[h]->in_len || c->state != M_CON_STATE_STARTED || c->oldestSentASDU != -1 || !c->isRunning) return;
     int before = prng_range(1, k > 1 ? k - 1 : 1);                  /* entries before the wrap */
-    op_preset(h, 32768 - before, c->receiveCount);
+    int lo = 32768 - before;
+    op_preset(h, lo, c->receiveCount);
     for (int i = 0; i < k; i++) { int n = rnd_asdu(a, hdr, 30); op_enq(a, n); op_tick(1); }
+    /* first acknowledge exactly up to the wrap, so that the oldest outstanding APDU is the one with N(S) = 0, and repeat
+     * that acknowledgement (it acknowledges nothing new and is valid) */
+    if (prng_below(3) && ((0 - lo) & 32767) <= ((next_ns[h] - lo) & 32767)) { if ((lo = ack_probe(h, 0, lo)) < 0) return; if ((lo = ack_probe(h, 0, lo)) < 0) return; }
     for (int round = 0; round < 4; round++) {
-        c = conn_of_hid(h); if (!c || c->oldestSentASDU == -1) return;
-        int j = c->oldestSentASDU, steps = prng_below(k), nr = c->sentASDUs[j].seqNo;
-        while (steps-- > 0 && j != c->newestSentASDU) { j = (j + 1) % c->maxSentASDUs; nr = c->sentASDUs[j].seqNo; }
-        op_rx(h, f, frame_s(f, (nr + 1) % 32768)); op_tick(1);
+        int out = (next_ns[h] - lo) & 32767;                         /* outstanding, as the peer sees it */
+        int kind = prng_below(8), r;
+        if (kind < 2) r = lo;                                        /* duplicate acknowledgement */
+        else if (kind < 7) r = (lo + prng_range(0, out)) % 32768;    /* acknowledges 0..all */
+        else r = prng_below(2) ? (lo + 32767 - prng_below(3)) % 32768 : (next_ns[h] + 1 + prng_below(3)) % 32768;   /* just outside */
+        if ((lo = ack_probe(h, r, lo)) < 0) return;
         if (prng_below(2)) { int n = rnd_asdu(a, hdr, 30); op_enq(a, n); op_tick(1); }
     }
 }
@@ -386,6 +415,14 @@ static void episode(bool thorough)
     op_start();
     int nh = 0, hs[32];
     int steps = thorough ? 400 : 120;
+    /* scripted (C08): a started connection in a slot ABOVE the number of open connections: A, B, C connect from one address,
+     * C is started, A and B close, D takes slot 0 and sends STARTDT act - C must be deactivated */
+    if (prng_below(5) == 0) { uint8_t f[8]; char peer[80]; const char* ip = IPS[prng_below(6)];
+        for (int q = 0; q < 3; q++) { if (strchr(ip, ':')) sprintf(peer, "[%s]:%d", ip, 40000 + nh); else sprintf(peer, "%s:%d", ip, 40000 + nh); hs[nh++] = op_conn(peer); op_tick(1); }
+        op_rx(hs[2], f, frame_u(f, 0x07)); op_tick(1);
+        op_close(hs[0]); op_close(hs[1]); op_tick(1); op_tick(1);
+        if (strchr(ip, ':')) sprintf(peer, "[%s]:%d", ip, 40000 + nh); else sprintf(peer, "%s:%d", ip, 40000 + nh); hs[nh++] = op_conn(peer); op_tick(1);
+        op_rx(hs[3], f, frame_u(f, 0x07)); op_tick(1); op_tick(1); }
     for (int st = 0; st < steps; st++) {
         int r = prng_below(100);
         /* prefer live connections */
@@ -503,10 +540,11 @@ int main(int argc, char** argv)
     if (order_fail) printf("ORDER_FAIL %s\n", order_info);
     if (wire_fail) printf("WIRE_FAIL %s\n", wire_info);
     if (kwin_fail) printf("KWIN_FAIL %s\n", kwin_info);
+    if (ack_fail) printf("ACK_FAIL %s\n", ack_info);
     if (life_fail) printf("LIFE_FAIL %s\n", life_info);
     if (t1_fail) printf("T1_FAIL %s\n", t1_info);
     if (group_fail) printf("GROUP_FAIL %s\n", group_info);
     if (queue_fail) printf("QUEUE_FAIL %s\n", queue_info);
-    printf("HISTO life_violations=%d group_violations=%d queue_violations=%d iframes_tx=%ld wire_violations=%d kwin_violations=%d replies_tracked=%ld order_violations=%d tx=%ld events=%ld asdu_callbacks=%ld closed=%ld iframes_rx=%ld sem_waits=%ld sem_max=%d sem_violations=%d deadlock=%d live_sem=%d live_sock=%d %s\n", life_fail, group_fail, queue_fail, n_iframes_tx, wire_fail, kwin_fail, n_replies_tracked, order_fail, n_tx, n_ev, n_asdu, n_closed, n_iframes_rx, sim_sem_waits, sim_sem_max_value, sim_sem_violations, sim_deadlock, sim_live_semaphores, sim_live_sockets, sim_sem_violation_where);
+    printf("HISTO life_violations=%d group_violations=%d queue_violations=%d iframes_tx=%ld wire_violations=%d kwin_violations=%d ack_probes_valid=%ld ack_probes_invalid=%ld ack_violations=%d replies_tracked=%ld order_violations=%d tx=%ld events=%ld asdu_callbacks=%ld closed=%ld iframes_rx=%ld sem_waits=%ld sem_max=%d sem_violations=%d deadlock=%d live_sem=%d live_sock=%d %s\n", life_fail, group_fail, queue_fail, n_iframes_tx, wire_fail, kwin_fail, n_ack_valid, n_ack_invalid, ack_fail, n_replies_tracked, order_fail, n_tx, n_ev, n_asdu, n_closed, n_iframes_rx, sim_sem_waits, sim_sem_max_value, sim_sem_violations, sim_deadlock, sim_live_semaphores, sim_live_sockets, sim_sem_violation_where);
     return 0;
 }
